@@ -116,7 +116,7 @@ def correspond(ctx):
 
 def plan_fn(ctx, r, quick):
     plan = []
-    reps = 1 if quick else 12
+    reps = 4 if quick else 40
     for _ in range(reps):
         plan += [("lap", "lap")] * 24 + [("dm", "dm")] * 20 + [("embed", "le")] * 30 + [("embed", "dm")] * 30
     specs = [make_spec(r.fork(), op, m, quick) for op, m in plan]
